@@ -1438,6 +1438,9 @@ func (e *Engine) checkReplacementKeeps(tx *Tx, rep *Report) {
 				props = append(props, "C05") // ... and announced the same burn a second time under it
 			}
 		}
+		if deposit && (f == "amount" || f == "burn-token" || f == "depositor" || f == "body-shape") {
+			props = append(props, "C05") // the module announces, under a burnt nonce, a burn that did not happen as stated
+		}
 		e.viol(props, "replacement-keeps", "C09:replacement-changed:"+f,
 			fmt.Sprintf("the replacement differs from the original in %s: original %x, replacement %x", f, orig, rep.Sent[0]), e.caseOf(tx, ""))
 	}
